@@ -154,9 +154,13 @@ TickSign(n) ==
   /\ up[n] /\ pc[n] = "gotTick"
   /\ LET h == head[n]
          r == SignedRound(cur[n], h)
-     IN /\ r \in Rounds
-        /\ Broadcast(n, r, IF h >= cur[n] /\ r > cur[n] THEN "staleTick" ELSE "other",
-                     [want EXCEPT ![n] = IF h + 1 < cur[n] THEN Max2(@, cur[n]) ELSE @])
+     IN IF h > cur[n]
+          THEN \* broadcastNextPartial returns at once: the chain is ahead of the ticked round, the
+               \* next round's time has not come for this node (repair of F8, see known_findings.json)
+               UNCHANGED <<head, aggLast, cache, cup, net, want, early>>
+          ELSE /\ r \in Rounds
+               /\ Broadcast(n, r, IF h >= cur[n] /\ r > cur[n] THEN "staleTick" ELSE "other",
+                            [want EXCEPT ![n] = IF h + 1 < cur[n] THEN Max2(@, cur[n]) ELSE @])
   /\ pc' = [pc EXCEPT ![n] = "idle"]
   /\ UNCHANGED <<clock, tick, cur, timers, up, faults>>
   /\ act' = [name |-> "TickSign", n |-> n, round |-> SignedRound(cur[n], head[n])]
